@@ -1,3 +1,7 @@
-import ArcheProofs.Props.C04
-import ArcheProofs.Props.C12
 import ArcheProofs.Props.C02
+import ArcheProofs.Props.C04
+import ArcheProofs.Props.C09
+import ArcheProofs.Props.C12
+import ArcheProofs.Props.C16
+import ArcheProofs.Props.C17
+import ArcheProofs.Props.C20
